@@ -223,6 +223,11 @@ impl Ring {
     pub fn usable(&self) -> bool {
         !self.dead && self.sq_ring.usable() && self.cq_ring.usable() && self.sqes.usable()
     }
+    /// The kernel can still consume submissions (the completion ring mapping
+    /// of the user may be gone already, the kernel's own memory is not).
+    pub fn can_consume(&self) -> bool {
+        !self.dead && self.sq_ring.usable() && self.sqes.usable()
+    }
 }
 
 /// Configuration of the next rings / of the kernel behaviour.
